@@ -17,22 +17,22 @@ EXEMPT = {
 
 
 def run(chk):
-    r02a(chk)
+    chk.attempt(r02a, chk)
     from .c13 import r13a, r13b
 
-    r13a(chk, 'R02.b')
-    r13b(chk, 'R02.b2')
-    r02c(chk)
+    chk.attempt(r13a, chk, 'R02.b')
+    chk.attempt(r13b, chk, 'R02.b2')
+    chk.attempt(r02c, chk)
     from .c18 import r18h
 
-    r18h(chk, 'R02.e')
+    chk.attempt(r18h, chk, 'R02.e')
     from .c16 import r16b
 
-    r16b(chk, 'R02.d')
+    chk.attempt(r16b, chk, 'R02.d')
     from .c04 import r02f
 
-    r02f(chk)
-    r02g(chk)
+    chk.attempt(r02f, chk)
+    chk.attempt(r02g, chk)
 
 
 def lit_strings(node):
